@@ -60,7 +60,134 @@ def run(prog):
             {show(strip(strip(a[2])[2][0])), show(strip(strip(a[3])[2][0]))} == {"arg2", "arg3"}
         if not ok:
             errs.append("a path answers with %s" % show(a)[:80])
+    out += hash_definitions(prog)
     out.append(inst("SE", "%s:SE2:eq-by-hash" % fn.npath, VIOLATION if errs else OK, fn, None,
                     ("%s; the semantic builder does not keep one pointer per function (no trimming, literals are not in the "
                      "tables), so only the hashes may decide equality" % errs[0]) if errs else "hash(a) == hash(b) on every path"))
+    return out
+
+
+def _products(t):
+    """top-level sum of products -> list of operand pairs"""
+    t = strip(t)
+    if t[0] == "bin" and t[1] == "Add":
+        return _products(t[2]) + _products(t[3])
+    if t[0] == "bin" and t[1] == "Mul":
+        return [(strip(t[2]), strip(t[3]))]
+    return [None]
+
+
+def _hash_of(t, what):
+    """t = cached_semantic_hash(<what>, order/vtree, map) or semantic_hash(...)"""
+    t = strip(t)
+    return t[0] == "call" and t[1].name in ("cached_semantic_hash", "semantic_hash") and len(t[2]) == 3 and \
+        show(strip(t[2][0])) in what and strip(t[2][1]) == ("param", 2) and strip(t[2][2]) == ("param", 3)
+
+
+def _weight(t, var, fld):
+    t = strip(t)
+    return t[0] == "field" and t[2] == fld and mir.is_call(strip(t[1]), "var_weight") and \
+        strip(strip(t[1])[2][0]) == ("param", 3) and show(strip(strip(t[1])[2][1])) in var
+
+
+def hash_definitions(prog):
+    """SE3  the semantic hash is the weighted model count of the node over the random field weights:
+         decision node (BddNode, BinarySDD):  h(low)·w_low(var) + h(high)·w_high(var)
+         element (SddAnd):                    h(prime)·h(sub)
+         or-node (SddOr):                     Σ over its elements of the element hash
+         pointers:                            ⊤ ↦ 1, ⊥ ↦ 0, literal (x, pol) ↦ pol ? w_high(x) : w_low(x)
+       and the weights are drawn as (1 − v, v) for ONE random v per variable (low + high ≡ 1)."""
+    out = []
+
+    def put(fn, name, errs, okmsg):
+        out.append(inst("SE", "%s:SE3:%s" % (fn.npath, name), VIOLATION if errs else OK, fn, None, "; ".join(errs) if errs else okmsg))
+
+    for adt, low, high, var in (("repr::bdd::BddNode", ("arg1.low",), ("arg1.high",), ("arg1.var",)),
+                                ("repr::sdd::binary_sdd::BinarySDD", ("low(arg1)", "arg1.low"), ("high(arg1)", "arg1.high"),
+                                 ("label(arg1)", "arg1.label"))):
+        fn = prog.find1(name="semantic_hash", self_adt=adt, unit="rsdd-lib")
+        ps = _products(fn.terms.ret)
+        errs = []
+        if len(ps) != 2 or None in ps:
+            errs.append("hash is %s, not a sum of two products" % show(fn.terms.ret)[:90])
+        else:
+            seen = set()
+            for a, b in ps:
+                for h, w in ((a, b), (b, a)):
+                    if _hash_of(h, low) and _weight(w, var, "0"):
+                        seen.add("low")
+                    elif _hash_of(h, high) and _weight(w, var, "1"):
+                        seen.add("high")
+                    elif _hash_of(h, low) and _weight(w, var, "1"):
+                        errs.append("the low child's hash is multiplied by the weight of the *true* literal")
+                    elif _hash_of(h, high) and _weight(w, var, "0"):
+                        errs.append("the high child's hash is multiplied by the weight of the *false* literal")
+            if not errs and seen != {"low", "high"}:
+                errs.append("expected h(low)·w_low(var) + h(high)·w_high(var), found %s" % show(fn.terms.ret)[:110])
+        put(fn, "decision", errs, "h(low)·w_low(var) + h(high)·w_high(var)")
+    fn = prog.find1(name="semantic_hash", self_adt="repr::sdd::sdd_or::SddAnd", unit="rsdd-lib")
+    ps = _products(fn.terms.ret)
+    ok = len(ps) == 1 and ps[0] is not None and {True} == {(_hash_of(ps[0][0], ("arg1.prime",)) and _hash_of(ps[0][1], ("arg1.sub",))) or
+                                                         (_hash_of(ps[0][1], ("arg1.prime",)) and _hash_of(ps[0][0], ("arg1.sub",)))}
+    put(fn, "element", [] if ok else ["element hash is %s, expected h(prime)·h(sub)" % show(fn.terms.ret)[:90]], "h(prime)·h(sub)")
+    fn = prog.find1(name="semantic_hash", self_adt="repr::sdd::sdd_or::SddOr", unit="rsdd-lib")
+    r = strip(fn.terms.ret)
+    errs = []
+    inner = strip(r[2][0]) if mir.is_call(r, "new") and r[2] else r
+    if not (mir.is_call(inner, "sum") and mir.is_call(strip(inner[2][0]), "map") and "arg1.nodes" in show(strip(inner[2][0])[2][0])):
+        errs.append("or-node hash is %s, not the sum over its elements" % show(r)[:90])
+    else:
+        clo = strip(inner[2][0])[2][1]
+        kids = [g for g in prog.lib_fns if isinstance(clo, tuple) and clo[0] == "agg" and g.npath == clo[2]]
+        kr = strip(kids[0].terms.ret) if kids else None
+        if not (kr and mir.is_call(kr, "value") and mir.is_call(strip(kr[2][0]), "semantic_hash") and strip(strip(kr[2][0])[2][0]) == ("param", 2)):
+            errs.append("the summand is %s, not the hash of the element" % (show(kr)[:60] if kr else "?"))
+    put(fn, "or-node", errs, "Σ over elements of the element hash")
+    for adt in ("repr::bdd::BddPtr", "repr::sdd::SddPtr"):
+        fn = prog.find1(name="cached_semantic_hash", self_adt=adt, unit="rsdd-lib")
+        r = strip(fn.terms.ret)
+        errs = []
+        a = prog.adts.get(adt)
+        vnames = [v["name"] for v in a["variants"]]
+        if r[0] != "gamma":
+            errs.append("not a match on the pointer")
+        else:
+            for lab, v in r[2]:
+                if not isinstance(lab, str) or not lab.isdigit():
+                    continue
+                vn = vnames[int(lab)]
+                v = strip(v)
+                if vn in ("PtrTrue", "PtrFalse"):
+                    want = "1" if vn == "PtrTrue" else "0"
+                    if not (mir.is_call(v, "new") and strip(v[2][0]) == ("const", "u128", want)) and \
+                            not (mir.is_call(v, "one" if want == "1" else "zero")):
+                        errs.append("%s hashes to %s, expected %s" % (vn, show(v)[:30], want))
+                if vn == "Var":
+                    if v[0] != "gamma" or "(arg1 as Var).1" not in show(v[1]):
+                        errs.append("literal hash does not depend on the polarity")
+                    else:
+                        for l2, x in v[2]:
+                            fld = "0" if l2 == "0" else "1"
+                            if not _weight(x, ("(arg1 as Var).0",), fld):
+                                errs.append("a %s literal hashes to %s" % ("negative" if fld == "0" else "positive", show(x)[:50]))
+        put(fn, "terminals", errs, "⊤ ↦ 1, ⊥ ↦ 0, literal ↦ weight of its polarity")
+    cl = [g for g in prog.lib_fns if g.npath.endswith("create_semantic_hash_map::{closure#0}")]
+    if len(cl) != 1:
+        raise CheckerError("SE3: weight generator closure not found")
+    g = cl[0]
+    r = strip(g.terms.ret)
+    errs = []
+    if not (r[0] == "agg" and r[1] == "tuple" and len(r[4]) == 2):
+        errs.append("weights are not a (low, high) pair")
+    else:
+        lo, hi = strip(r[4][0]), strip(r[4][1])
+        draws_hi = [x for x in mir.subterms(hi) if mir.is_call(x, "random_range")]
+        draws_lo = [x for x in mir.subterms(lo) if mir.is_call(x, "random_range")]
+        if len(draws_hi) != 1 or len(draws_lo) != 1 or draws_hi[0] != draws_lo[0]:
+            errs.append("low and high weight are not derived from one random draw")
+        slo = show(lo)
+        if not ("P SubWithOverflow" in slo and "AddWithOverflow 1" in slo):
+            errs.append("low weight is %s, expected P − v + 1 (so that low + high ≡ 1)" % slo[:80])
+    out.append(inst("SE", "%s:SE3:weights-sum-to-one" % g.npath, VIOLATION if errs else OK, g, None,
+                    "; ".join(errs) if errs else "(P − v + 1, v) for one draw v: low + high ≡ 1 (mod P)"))
     return out
